@@ -50,7 +50,8 @@ Oracle (reference model `Oracle`/`Epoch`, nothing taken from luna):
 After the first violation of a session nothing more is judged in that session (no follow-up alarms; the next session
 starts from reset).  The mechanism names of the defects found on the unchanged tree (findings/C39.md) are decided from
 the observed pattern only: DL of the packet that was on the wire when the LBAD arrived, LBAD word one cycle before the
-end of a packet, acceptance in the cycle after the LBAD word, previous epoch closed with an open retry.
+end of a packet, acceptance in the cycle after the LBAD word without the transmitter having caught up since, previous epoch closed with
+an open retry.
 
 Not judged: DL on headers that are transmitted for the first time (USB 3.2 allows DL on delayed headers), CRCs and framing
 (C36), payloads, hub depth / deferred, `recovery_required`, the 5 ms credit timer, whether retransmission waits for LRTY;
@@ -475,7 +476,9 @@ class Oracle:
                     self.idle = 0
                     return
                 mech = "retransmission_not_started" if ep.pend else ("retransmission_run_incomplete" if eff < ep.hw else "accepted_header_not_transmitted")
-                if ep.accept_with_lbad is not None and eff == len(ep.A) - 1:
+                if ep.accept_with_lbad is not None and eff >= ep.accept_with_lbad:
+                    # since that acceptance the transmitter never caught up: it stays one header behind (the owed one need not be
+                    # the newest: another header may have been accepted a moment ago)
                     mech = "header_accepted_in_lbad_cycle_then_last_header_never_transmitted"
                 elif ep.pend and ep.pend[-1]["stale_dl"]:
                     mech = "lbad_during_retry_forgotten"
